@@ -202,8 +202,9 @@ pub fn generate(tier: Tier, rng: &mut Rng) -> Vec<Case> {
     }
     // strings: bytes() then string() returns the original text
     let n = if tier == Tier::Quick { 300 } else { 30_000 };
-    for _ in 0..n {
-        let s = gen_string(rng);
+    let edge_strings: Vec<String> = ["\u{feff}abc", "\u{feff}", "abc\u{feff}", "\u{feff}42", "\u{0}abc", " abc ", "\nabc\n", "\u{fffe}x", "\u{200b}x", "\r\n", "\u{a0}1", "0042", "+1", "\u{202e}abc"].iter().map(|s| s.to_string()).collect();
+    for i in 0..n + edge_strings.len() {
+        let s = if i < edge_strings.len() { edge_strings[i].clone() } else { gen_string(rng) };
         let mut vspec = CtxSpec::default_ctx();
         vspec.vars.push(("s".into(), Value::String(std::sync::Arc::new(s.clone()))));
         push(&mut out, &vspec, "string(bytes(s)) == s".into(), Some(ok("(bool 1)")), vec!["roundtrip", "string"]);
